@@ -3,7 +3,7 @@
     specification and the loop continues with the remaining tokens. *)
 From Coq Require Import String Ascii List Bool Arith NArith ZArith Lia.
 From Raven Require Import Base.GoStr Base.GoStrFacts Model.Search Model.SearchText Spec.Search Model.SearchClass
-  Proof.SearchTok Proof.SearchAtoms Proof.SearchDate.
+  Proof.SearchTok Proof.SearchAtoms Proof.SearchDate Proof.SearchFields.
 From Raven Require Model.SeqSet Spec.SeqSet Proof.SeqSetParse Proof.FetchSearchExact.
 Import ListNotations.
 Local Open Scope Z_scope.
@@ -161,6 +161,23 @@ Proof.
   - revert H. apply forallb_impl. intros x Hx. apply A in Hx as (-> & -> & -> & ->). reflexivity.
 Qed.
 
+(** without a horizontal tab, SP-separated and WSP-separated parts are the same *)
+Lemma fields_by_ext_in (p q : ascii -> bool) s : (forall c, In c s -> p c = q c) ->
+  forall cur, fields_by_aux p s cur = fields_by_aux q s cur.
+Proof.
+  induction s as [|c s IH]; intros H cur; [reflexivity|]. cbn [fields_by_aux].
+  rewrite <- (H c (or_introl eq_refl)). destruct (p c); destruct cur; rewrite IH; auto; intros; apply H; now right.
+Qed.
+
+Lemma mail_date_no_tab v : existsb (Ascii.eqb tab) v = false ->
+  mail_date_by (fun c => Ascii.eqb c sp || Ascii.eqb c tab) v = mail_date_by (fun c => Ascii.eqb c sp) v.
+Proof.
+  intros H. unfold mail_date_by, fields_by. rewrite (fields_by_ext_in _ (fun c => Ascii.eqb c sp) v); [reflexivity|].
+  intros c Hc. destruct (Ascii.eqb_spec c tab) as [->|_]; [|now rewrite orb_false_r].
+  exfalso. assert (X : existsb (Ascii.eqb tab) v = true) by (apply existsb_exists; exists tab; split; [exact Hc | apply Ascii.eqb_refl]).
+  congruence.
+Qed.
+
 Definition atomic (k : key) : Prop := match k with KNot _ | KOr _ _ | KGroup _ => False | _ => True end.
 
 Section Step.
@@ -183,10 +200,22 @@ Proof.
   rewrite forallb_forall in Hf. apply Hf. eapply in_numbered. exact Hin.
 Qed.
 
-Lemma text_step k : text_class k mb = None -> text_agree_on mb k (i, sm) = true.
+Lemma sent_date_step c d : date_ok d = true -> sent_class mb = None ->
+  matches_sent_date m (print_date d) c = spec_text_key (KDate true c d) sm.
 Proof.
-  unfold text_class. destruct (forallb (text_agree_on mb k) (numbered mb)) eqn:E; [|discriminate].
-  intros _. rewrite forallb_forall in E. now apply E.
+  intros W C. unfold matches_sent_date. cbn [spec_text_key to_msg to_msg_in m_text]. unfold sent_date.
+  rewrite header_field_values_spec.
+  assert (NT : date_has_tab sm = false).
+  { unfold sent_class in C. destruct (existsb date_has_tab mb) eqn:E; [discriminate|].
+    destruct (date_has_tab sm) eqn:T; [|reflexivity]. exfalso.
+    assert (X : existsb date_has_tab mb = true) by (apply existsb_exists; exists sm; split; [eapply in_numbered; exact Hin | exact T]).
+    congruence. }
+  unfold date_has_tab in NT.
+  destruct (field_values (s_text sm) (S_ "Date")) as [|v vs]; [reflexivity|].
+  rewrite (parse_print_date d W). unfold rfc5322_date, mail_date.
+  rewrite (mail_date_no_tab _ NT).
+  destruct (trim_space v) as [|x dh] eqn:T; [reflexivity|].
+  destruct (mail_date_by _ (x :: dh)); [|reflexivity]. destruct (sdate_val d); reflexivity.
 Qed.
 
 (** keys other than NOT / OR *)
@@ -208,12 +237,10 @@ Proof.
     cbn [to_msg to_msg_in m_seq m_maxseq spec_eval]. now rewrite (FetchSearchExact.matches_set_exact s _ i W).
   - (* UID set *) cbn [wf_key] in W. unfold set_ok in W. rewrite el_uid.
     cbn [to_msg to_msg_in m_uid m_maxuid spec_eval]. now rewrite (FetchSearchExact.matches_set_exact s _ (s_uid sm) W).
-  - (* BCC CC FROM SUBJECT TO *) rewrite el_hdr. unfold quote. rewrite unquote_quote.
-    pose proof (text_step _ C) as A. cbn [text_agree_on snd] in A. apply eqb_prop in A. now rewrite A.
-  - (* HEADER *) rewrite el_header. unfold quote. rewrite !unquote_quote.
-    pose proof (text_step _ C) as A. cbn [text_agree_on snd] in A. apply eqb_prop in A. now rewrite A.
-  - (* BODY *) rewrite el_body. unfold quote. rewrite unquote_quote.
-    pose proof (text_step _ C) as A. cbn [text_agree_on snd] in A. apply eqb_prop in A. now rewrite A.
+  - (* BCC CC FROM SUBJECT TO *) rewrite el_hdr. unfold quote. rewrite unquote_quote. now rewrite matches_hdr_spec.
+  - (* HEADER *) cbn [wf_key] in W. apply andb_true_iff in W as [Wf _].
+    rewrite el_header. unfold quote. rewrite !unquote_quote. now rewrite (matches_header_spec _ _ _ Wf).
+  - (* BODY *) cbn [wf_key] in W. rewrite el_body. unfold quote. rewrite unquote_quote. now rewrite (matches_body_spec _ _ W).
   - (* TEXT *) rewrite el_text. unfold quote. rewrite unquote_quote. reflexivity.
   - (* LARGER *) cbn [wf_key] in W. rewrite el_larger, (atoi_numeral n W). reflexivity.
   - (* SMALLER *) cbn [wf_key] in W. rewrite el_smaller, (atoi_numeral n W). reflexivity.
@@ -225,7 +252,7 @@ Proof.
         repeat (apply andb_true_iff in P as [P ?]).
         repeat match goal with X : negb _ = true |- _ => apply negb_true_iff in X end. assumption. }
     rewrite U. destruct sent.
-    + pose proof (text_step _ C) as A. cbn [text_agree_on snd] in A. apply eqb_prop in A. now rewrite A.
+    + now rewrite (sent_date_step c d W C).
     + unfold matches_date. rewrite (parse_print_date d W). cbn [spec_eval to_msg to_msg_in m_idate].
       destruct (sdate_val d); reflexivity.
 Qed.
